@@ -8,7 +8,10 @@ Bounded exhaustive enumeration on the real implementation (no sampling):
     opener/end, the opener as a `liquid` line, a bare "{%"} x {no text, text between} x {no
     trailing text, trailing text};  X: sequences of lexer-level pieces (unterminated raw /
     comment / doc / delimiters / template comments);  Q: `liquid` tags made of 1..4 lines with
-    6 terminations;  N: b nested openers (b around the block nesting limit) without any end tag.
+    6 terminations;  N: b nested openers (b around the block nesting limit) without any end tag;
+    E: regex/lexer blow-up shapes -- in every expression position an opening quote that is never
+    closed followed by a 30..60 character tail, and 200 repetitions of one fragment -- parsed in a
+    forked child under a kernel CPU limit because a C-level regex match cannot be interrupted.
     All in STRICT and LAX.
     Oracle: from_string returns or raises within a deterministic STEP BUDGET on the token stream
     (mc/ref/c09_monitor.py); a RecursionError, raw or wrapped in a LiquidError, is a violation;
@@ -50,6 +53,7 @@ from mc.ref import c09_monitor as MON
 RECURSION_LIMIT = 1000  # the CPython default; the check insists on it
 PARSE_BACKSTOP_S = 5.0
 RENDER_BACKSTOP_S = 20.0
+E_POSITIONS_PER_SHARD = 4
 MAX_BACKSTOP_HANGS_PER_SHARD = 3
 LOAD_C = 100  # render step budget: template loads <= LOAD_C * (context_depth_limit + 10)
 
@@ -139,6 +143,74 @@ def render_levels(exc: BaseException) -> int:
 
 
 # ---------------------------------------------------------------------------
+# isolated (forked, kernel CPU limit) parsing: confirmation of backstop suspicions and the
+# regex/lexer blow-up family
+# ---------------------------------------------------------------------------
+def parse_label(src: str, mode: str, comments: bool, render: bool) -> str:
+    """Parse (and optionally render) one source with no alarm at all; a short outcome label."""
+    env = get_env(mode, None, comments)
+    MON.install_stream_monitor()
+    MON.begin_parse(len(src))
+    tpl = None
+    try:
+        try:
+            tpl = env.from_string(src)
+            label = "ok"
+        except LiquidError as e:
+            label = "liquid:" + type(e).__name__
+            if caused_by_recursion(e):
+                label = "RecursionError(as " + type(e).__name__ + ")"
+        except RecursionError:
+            label = "RecursionError"
+        except Exception as e:  # noqa: BLE001
+            label = "other:" + type(e).__name__
+    except MON.StepBudgetExceeded as e:
+        label = "hang:" + e.kind
+    finally:
+        MON.end_parse()
+    if render and tpl is not None:
+        try:
+            tpl.render(**GEN.DATA)
+        except RecursionError:
+            label = "render:RecursionError"
+        except Exception:  # noqa: BLE001
+            pass
+    return label
+
+
+def isolated_parse(items: list[tuple[str, str, bool, bool]], cpu_s: int = MON.ISOLATED_CPU_S,
+                   ) -> tuple[dict[int, str], Optional[int], float, Optional[int]]:
+    """Parse ``items`` = [(source, mode, comments, render)] one after the other in ONE forked child
+    under RLIMIT_CPU.  Returns (labels by index, index the child was working on when it was
+    killed or None, CPU seconds that source alone had consumed, signal)."""
+    import time as _time
+
+    def work(emit: Any) -> None:
+        for i, (src, mode, comments, render) in enumerate(items):
+            emit({"i": i, "cpu": _time.process_time()})
+            label = parse_label(src, mode, comments, render)
+            emit({"i": i, "label": label, "done": _time.process_time()})
+
+    out, sig = MON.run_isolated(work, cpu_s)
+    labels: dict[int, str] = {}
+    announced: dict[int, float] = {}
+    for o in out:
+        if "label" in o:
+            labels[o["i"]] = o["label"]
+            if o["done"] - announced.get(o["i"], o["done"]) > PARSE_BACKSTOP_S:
+                # finished, but only after seconds of CPU: not "promptly"
+                labels[o["i"]] = f"hang:slow({o['done'] - announced[o['i']]:.0f}s cpu):" + o["label"]
+        else:
+            announced[o["i"]] = o["cpu"]
+    if sig is None:
+        return labels, None, 0.0, None
+    pending = [i for i in announced if i not in labels]
+    culprit = max(pending) if pending else (max(labels) + 1 if labels else 0)
+    own = cpu_s - announced.get(culprit, 0.0)
+    return labels, culprit, own, sig
+
+
+# ---------------------------------------------------------------------------
 # one parse case
 # ---------------------------------------------------------------------------
 class ParseRunner:
@@ -192,11 +264,23 @@ class ParseRunner:
                     f"limit {MON.STALL_LIMIT} calls without advancing / {MON.TOTAL_C}*(chars+1)^2+{MON.TOTAL_FLOOR} calls)")
         except MON.CaseHang:
             arm(0)
-            label = "hang:cpu-backstop"
-            viol = ({"clause": "parse-terminates", "phase": "parse", "family": family, "mode": mode,
-                     "how": "cpu-backstop"},
-                    f"parse of {src[:120]!r} in {mode} did not finish within {PARSE_BACKSTOP_S}s of CPU time "
-                    "(hang outside the token stream)")
+            MON.end_parse()
+            # only a suspicion: confirm alone, in a forked child under a kernel CPU limit
+            labels, culprit, _, sig = isolated_parse([(src, mode, comments, False)])
+            if culprit is None:
+                res.count("backstop_spurious")
+                label = labels.get(0, "?")
+                if label.startswith("RecursionError") or label.startswith("hang:"):
+                    res.count("backstop_spurious_case_needs_attention:" + label)
+            else:
+                label = "hang:cpu-limit"
+                viol = ({"clause": "parse-terminates", "phase": "parse", "family": family, "mode": mode,
+                         "how": "cpu-limit-isolated-child"},
+                        f"parse-hang (CPU limit in isolated child): parse of {src[:120]!r} in {mode} did not finish "
+                        f"within {PARSE_BACKSTOP_S}s of CPU time in the worker and, re-run alone in a forked child, was "
+                        f"killed by RLIMIT_CPU={MON.ISOLATED_CPU_S}s (signal {sig}); hang outside the token stream")
+        finally:
+            arm(0)
         calls, stall = MON.end_parse()
         if stall > self.max_stall:
             self.max_stall = stall
@@ -237,10 +321,17 @@ class ParseRunner:
                 arm(0)
         except MON.CaseHang:
             arm(0)
-            label = "hang"
+            labels, culprit, _, _sig = isolated_parse([(src, mode, case.get("comments", False), True)])
+            if culprit is None:
+                res.count("backstop_spurious")
+                label = "RecursionError" if labels.get(0) == "render:RecursionError" else "ok"
+            else:
+                label = "hang"
         except MON.StepBudgetExceeded:  # the monitor is off while rendering
             arm(0)
             label = "hang"
+        finally:
+            arm(0)
         res.case(outcome=f"skeleton-render:{label}")
         if label in ("RecursionError", "hang"):
             res.violation({"clause": "render-terminates" if label == "hang" else "render-within-stack",
@@ -251,6 +342,9 @@ class ParseRunner:
         # Counter.update() in the runner adds, so maxima are reported as per-shard buckets
         self.res.count("shard_max_stream_calls_without_advance<=" + bucket(self.max_stall))
         self.res.count("shard_max_stream_calls_per_char<=" + bucket(int(self.max_ratio) + 1))
+        n = MON.spurious_signals()
+        if n:
+            self.res.count("sigprof_ignored_outside_armed_window_or_early", n)
 
 
 def bucket(n: int) -> str:
@@ -268,7 +362,8 @@ def links_label(kinds: tuple[str, ...]) -> str:
 
 
 def run_render_case(templates: dict[str, str], limits: dict[str, int], mode: str, api: str,
-                    loader_kind: str = "dict", start: str = "t0") -> dict[str, Any]:
+                    loader_kind: str = "dict", start: str = "t0",
+                    backstop_s: float = RENDER_BACKSTOP_S) -> dict[str, Any]:
     """Parse + render t0 on the case thread at a fixed frame depth; classify the outcome."""
     env = get_env(mode, limits)
     loader: Any = (MON.CountingCachingLoader if loader_kind == "caching" else MON.CountingLoader)(dict(templates))
@@ -307,7 +402,7 @@ def run_render_case(templates: dict[str, str], limits: dict[str, int], mode: str
 
     with warnings.catch_warnings():
         warnings.simplefilter("ignore")
-        r = MON.run_at_fixed_depth(body, RENDER_BACKSTOP_S)
+        r = MON.run_at_fixed_depth(body, backstop_s)
     if isinstance(r, MON.Hung):
         return {"kind": "hang", "killed": r.killed, "loads": loader.loads}
     if r["depth"] != MON.ENTRY_DEPTH:
@@ -348,9 +443,10 @@ def judge_render(res: Result, r: dict[str, Any], sig_base: dict[str, Any], case:
                       f"{desc}: exceeded the template-load step budget ({r['detail']})", case)
         return "hang:template-loads"
     if k in ("hang", "killed"):
-        res.violation(dict(sig_base, clause="render-terminates", how="cpu-backstop"),
-                      f"{desc}: did not finish within {RENDER_BACKSTOP_S}s of CPU time (loads={r.get('loads')})", case)
-        return "hang:cpu-backstop"
+        res.violation(dict(sig_base, clause="render-terminates", how="cpu-limit-isolated-child"),
+                      f"{desc}: did not finish within {RENDER_BACKSTOP_S}s of CPU time (loads={r.get('loads')}); "
+                      f"{r.get('confirmed')}", case)
+        return "hang:cpu-limit"
     # a non-Liquid exception other than RecursionError: terminated, class is C02's business
     res.count("render_non_liquid_exception_terminated(C02 territory)")
     return "other:" + r["cls"]
@@ -410,8 +506,9 @@ class C09(Check):
     title = "Parsing and rendering always terminate within the stack"
     rule = (
         "parse: every malformed source of <=k fragments, every sequence of 1..4 pieces of each block tag's "
-        "skeleton alphabet (x text between x trailing text), of lexer-level pieces and of `liquid` lines, and "
-        "b unterminated nested openers, in STRICT and LAX, each under a token-stream step budget; a parse case is "
+        "skeleton alphabet (x text between x trailing text), of lexer-level pieces and of `liquid` lines, b "
+        "unterminated nested openers, and (in an isolated child under RLIMIT_CPU) every expression position x "
+        "{unterminated quote + 30..60 char tail, 200x repeated fragment}, in STRICT and LAX, each under a token-stream step budget; a parse case is "
         "non-trivial when the source opens at least one tag/output/comment delimiter and (for the tag skeletons) is "
         "unterminated/unbalanced/malformed by the generator's bracket discipline (identity = family, piece indices, mode). render: every cycle of 1..3 templates over the link kinds x wrapper "
         "kind x b in 0..block_nesting_limit x context_depth_limit set x (mode, api), plus non-recursive nesting at "
@@ -427,7 +524,12 @@ class C09(Check):
         f"<= {MON.STALL_LIMIT} consecutive calls without the position advancing and <= {MON.TOTAL_C}*(chars+1)^2+{MON.TOTAL_FLOOR} calls in "
         "total; termination of rendering by a template-load budget of 100*(context_depth_limit+10); CPU-time alarms "
         "(5 s parse, 20 s render; ITIMER_PROF / process_time, so machine load cannot fire them) are backstops only and were never needed on the unchanged tree",
-        "a hang inside a C-level regular-expression match could not be interrupted by the backstop (not observed)",
+        "a C-level regular-expression match cannot be interrupted by a Python signal handler: the regex/lexer blow-up "
+        "family (E) therefore runs in a forked child under a kernel CPU limit (RLIMIT_CPU 20 s; the child announces each "
+        "source before parsing it; > 5 s of CPU for one parse is also reported); the other families contain no quote "
+        "or run longer than a few characters, so they cannot reach such a blow-up without E reaching it too",
+        "a CPU-backstop firing is never a verdict: the case is re-run alone in a forked child under RLIMIT_CPU and "
+        "reported only if the kernel kills that child; otherwise it is counted as backstop_spurious",
         "templates are served by a non-caching DictLoader (every include/render re-parses the partial, as for a user "
         "of DictLoader); loop wrappers iterate over a one-element list",
         "non-Liquid exceptions other than RecursionError terminate and are C02's concern; they are counted, not judged",
@@ -442,6 +544,9 @@ class C09(Check):
             "tags": list(GEN.BLOCK_TAGS),
             "lexer_piece_len": 3 if q else 4,
             "liquid_lines": 3 if q else 4,
+            "blowup_family": f"{len(GEN.POSITIONS)} expression positions x (unterminated quote {{',\"}} x 4 tail kinds x tail "
+                             f"lengths {list(GEN.TAIL_LENGTHS)} + {len(GEN.RUN_FRAGMENTS)} fragments repeated {GEN.RUN_LENGTH}x), "
+                             f"in a forked child under RLIMIT_CPU={MON.ISOLATED_CPU_S}s",
             "modes": ["strict", "lax"],
             "families": len(family_list(tier)),
             "cycle_len": "1..3 (n=1 over all 7 link kinds, n=2 over include/render/extends/call/snippet, n=3 over "
@@ -486,6 +591,8 @@ class C09(Check):
             sh.append(("Q", 3 if q else 4, first))
         for w in GEN.WRAPPER_KINDS:
             sh.append(("N", w))
+        for g in range(0, len(GEN.POSITIONS), E_POSITIONS_PER_SHARD):
+            sh.append(("E", g))
         for kinds in family_list(tier):
             if q and len(kinds) > 1:
                 sh.append(("R", kinds, None))
@@ -514,6 +621,13 @@ class C09(Check):
                 else:
                     self.run_unterminated_nesting(pr, arm, shard[1])
             pr.finish()
+        elif kind == "E":
+            for pos in range(shard[1], min(shard[1] + E_POSITIONS_PER_SHARD, len(GEN.POSITIONS))):
+                if not self.run_blowup(res, pos):
+                    # a confirmed hang costs ISOLATED_CPU_S of CPU; the shard already fails
+                    res.count("blowup_positions_skipped_after_a_confirmed_hang",
+                              min(shard[1] + E_POSITIONS_PER_SHARD, len(GEN.POSITIONS)) - pos - 1)
+                    break
         elif kind == "R":
             MON.uninstall_stream_monitor()
             self.run_family(res, tier, tuple(shard[1]), shard[2])
@@ -578,6 +692,53 @@ class C09(Check):
                 for mode in ("strict", "lax"):
                     pr.one(arm, "N:" + w, [b, inner], src, mode)
 
+    def run_blowup(self, res: Result, position: int) -> bool:
+        """Regex / lexer blow-up shapes.  A C-level regular-expression match cannot be interrupted by a
+        Python signal handler, so these sources are parsed in a forked child whose CPU time the kernel
+        caps (RLIMIT_CPU); the child announces each source before it parses it."""
+        pname = GEN.POSITIONS[position][0]
+        srcs = GEN.blowup_sources(position)
+        items = [(src, mode, False, False) for _, src in srcs for mode in ("strict", "lax")]
+        idents = [(ident, mode) for ident, _ in srcs for mode in ("strict", "lax")]
+        start = 0
+        retried: set[int] = set()
+        while start < len(items):
+            labels, culprit, own_cpu, sig = isolated_parse(items[start:])
+            for k, label in sorted(labels.items()):
+                i = start + k
+                ident, mode = idents[i]
+                src = items[i][0]
+                res.case(nontrivial=["E", ident, mode], outcome=f"parse:{mode}:{label}",
+                         sample={"source": src[:100], "mode": mode, "outcome": label} if k % 97 == 5 else None)
+                if label.startswith("RecursionError") or label.startswith("hang:"):
+                    clause = "parse-terminates" if label.startswith("hang:") else "parse-within-stack"
+                    res.violation({"clause": clause, "phase": "parse", "family": "E", "mode": mode, "position": pname,
+                                   "shape": ident[1] + ":" + str(ident[2]), "outcome": label.split("(")[0].split(":")[0]},
+                                  f"parse of {src[:120]!r} ({len(src)} chars) in {mode}: {label}",
+                                  {"phase": "parse", "family": "E", "mode": mode, "source": src, "comments": False})
+            if culprit is None:
+                break
+            i = start + culprit
+            ident, mode = idents[i]
+            src = items[i][0]
+            if own_cpu < MON.ISOLATED_CPU_S / 2 and i not in retried:
+                # the limit was reached by the batch as a whole: give this source a child of its own
+                retried.add(i)
+                res.count("isolated_child_cpu_limit_reached_cumulatively_retry")
+                start = i
+                continue
+            res.case(nontrivial=["E", ident, mode], outcome=f"parse:{mode}:hang:cpu-limit")
+            res.violation({"clause": "parse-terminates", "phase": "parse", "family": "E", "mode": mode,
+                           "how": "cpu-limit-isolated-child", "position": pname, "shape": ident[1] + ":" + str(ident[2])},
+                          f"parse-hang (CPU limit in isolated child): parse of {src[:120]!r} ({len(src)} chars) in {mode} "
+                          f"was still running after {own_cpu:.0f}s of CPU when the kernel killed the child "
+                          f"(RLIMIT_CPU={MON.ISOLATED_CPU_S}s, signal {sig})",
+                          {"phase": "parse", "family": "E", "mode": mode, "source": src, "comments": False})
+            # every further hang costs ISOLATED_CPU_S of CPU and the shard already fails
+            res.count("blowup_sources_skipped_after_a_confirmed_hang", len(items) - i - 1)
+            return False
+        return True
+
     # -- render families -------------------------------------------------
     def run_family(self, res: Result, tier: str, kinds: tuple[str, ...], only_wrapper: Optional[str]) -> None:
         links = links_label(kinds)
@@ -631,7 +792,15 @@ class C09(Check):
             return
         r = run_render_case(templates, limits, mode, api, ld, start)
         if r["kind"] in ("hang", "killed"):
-            res.count("render_cases_hit_cpu_backstop")
+            # only a suspicion: re-run this one case alone in a forked child under a kernel CPU limit
+            out, sig = MON.run_isolated(
+                lambda emit: emit(run_render_case(templates, limits, mode, api, ld, start, backstop_s=1e9)))
+            if sig is None and out and out[-1].get("kind") not in ("hang", "killed"):
+                res.count("backstop_spurious")
+                r = out[-1]
+            else:
+                res.count("render_cases_hit_cpu_backstop")
+                r["confirmed"] = f"killed by RLIMIT_CPU={MON.ISOLATED_CPU_S}s (signal {sig}) when re-run alone in a forked child"
         desc = (f"render[{api},{mode},{ld} loader] of {start} in {{{', '.join(f'{k}: {v[:70]!r}' for k, v in templates.items())}}} "
                 f"(links {links}, {b} nested {w} blocks, limits {limits or 'default'})")
         sig = {"phase": "render", "family": fam, "links": links, "wrapper": w}
@@ -646,7 +815,15 @@ class C09(Check):
     # ------------------------------------------------------------------
     def replay(self, case: Any) -> list[dict[str, Any]]:
         res = Result()
-        if case["phase"].startswith("parse"):
+        if case["phase"].startswith("parse") and case.get("family") == "E":
+            labels, culprit, own_cpu, sig = isolated_parse([(case["source"], case["mode"], False, False)])
+            label = labels.get(0, "hang:cpu-limit")
+            if culprit is not None or label.startswith("RecursionError") or label.startswith("hang:"):
+                res.violation({"clause": "parse-terminates" if "hang" in label else "parse-within-stack", "phase": "parse",
+                               "family": "E", "mode": case["mode"]},
+                              f"parse of {case['source'][:120]!r} in {case['mode']}: {label} "
+                              f"(isolated child, RLIMIT_CPU={MON.ISOLATED_CPU_S}s, signal {sig})", case)
+        elif case["phase"].startswith("parse"):
             pr = ParseRunner(res)
             with MON.case_alarm() as arm:
                 pr.one(arm, case["family"], "replay", case["source"], case["mode"], comments=case.get("comments", False),
